@@ -552,6 +552,17 @@ def eval_element_pair(case):
         return {'v': v, 'nt': None, 'out': 'coupled'}
     want_p = canon_field(make(kind, props=((p, i),)).get_property(p))
     want_q = canon_field(make(kind, props=((q, j),)).get_property(q))
+    # the bulk setter: both in ONE call on a fresh model (also when a value equals what the element already holds)
+    if p != q and not (kind == 'node' and (p in coupled or q in coupled)):
+        t2 = live()
+        try:
+            element(t2, kind).set_properties(**{p: VOCAB[p][i](), q: VOCAB[q][j]()})
+            for nm, want in ((p, want_p), (q, want_q)):
+                got = canon_field(element(t2, kind).get_property(nm))
+                if got != want:
+                    v.append((f'element-bulk-set/{kind}/{nm}', f'set_properties({p}=..., {q}=...): {nm} reads {got}, was given {want} {ctx}'))
+        except Exception as ex:
+            v.append((f'element-pair-raises/{kind}/{p}+{q}', f'set_properties: {type(ex).__name__}: {ex} {ctx}'))
     t = live()
     try:
         _elem_set(element(t, kind), kind, p, VOCAB[p][i]())
